@@ -9,6 +9,7 @@ import (
 	"go/token"
 	"go/types"
 	"math/big"
+	"os"
 	"sort"
 	"strings"
 
@@ -563,6 +564,9 @@ func (x *Exec) debugRef(st *State, fr *Frame, in *ssa.DebugRef) {
 	if _, isB := in.X.(*ssa.Builtin); isB {
 		return
 	}
+	if obj, ok := in.Object().(*types.Var); !ok || obj.IsField() {
+		return // only variables: field selectors also get DebugRefs
+	}
 	v, ok2 := fr.regs[in.X]
 	if !ok2 {
 		switch in.X.(type) {
@@ -702,11 +706,28 @@ func (x *Exec) loopHeader(st *State, fr *Frame, h *ssa.BasicBlock, ord int, phis
 			for i, inv := range spec.Invariants {
 				x.assert(st, x.oblName(kindPrefix+"/step", i+1, inv.Label), "invariant-step", inv.Text, inv.Src, x.evalBool(sc, inv.Expr), true)
 			}
+			if len(spec.IterEnsures) > 0 {
+				isc := x.specCtxFor(st, fr, nil)
+				isc.evFrom = fr.loopEv[h]
+				for i, ie := range spec.IterEnsures {
+					x.assert(st, x.oblName(kindPrefix+"/iteration", i+1, ie.Label), "iteration-ensures", ie.Text, ie.Src, x.evalBool(isc, ie.Expr), true)
+				}
+			}
 		}
 		st.dead = true
 		return
 	}
 	fr.loopSeen[h] = true
+	if fr.loopEv == nil {
+		fr.loopEv = map[*ssa.BasicBlock]int{}
+	} else {
+		m := make(map[*ssa.BasicBlock]int, len(fr.loopEv)+1)
+		for k, v := range fr.loopEv {
+			m[k] = v
+		}
+		fr.loopEv = m
+	}
+	fr.loopEv[h] = len(st.events)
 	if spec != nil {
 		for i, inv := range spec.Invariants {
 			x.assert(st, x.oblName(kindPrefix+"/init", i+1, inv.Label), "invariant-init", inv.Text, inv.Src, x.evalBool(sc, inv.Expr), true)
@@ -1007,6 +1028,12 @@ func (x *Exec) invokeDeferred(st *State, fr *Frame, d deferred) []*State {
 func (x *Exec) checkExit(st *State, fr *Frame, res []Value, panicking bool) {
 	x.nExits++
 	c := x.rootC
+	if os.Getenv("GOVC_DEBUG") != "" {
+		fmt.Fprintf(os.Stderr, "EXIT %s panicking=%v trail=%v\n", relName(fr.fn), panicking, st.trail)
+		for _, ev := range st.events {
+			fmt.Fprintf(os.Stderr, "   event %d kind=%s name=%q method=%q nargs=%d panicked=%v\n", ev.Index, ev.Kind, ev.Name, ev.Method, len(ev.Args), ev.Panicked)
+		}
+	}
 	sc := x.specCtxFor(st, fr, fr.pre)
 	sc.atExit = true
 	x.curObs = nil
@@ -1120,15 +1147,7 @@ func (x *Exec) callResolved(st *State, fr *Frame, instr ssa.CallInstruction, com
 		return x.callStatic(st, fr, resInstr, fv.Fn, fv.Bind, args, isDefer, com)
 	}
 	// unknown function value: name it after the expression it came from, if it is a parameter
-	name := ""
-	switch cv := com.Value.(type) {
-	case *ssa.Parameter:
-		name = cv.Name()
-	case *ssa.FreeVar:
-		name = cv.Name()
-	default:
-		name = cv.Name()
-	}
+	name := funcValueName(com.Value)
 	return x.opaqueCall(st, fr, resInstr, name, fv, "", args, com.Signature().Results(), isDefer)
 }
 
@@ -1826,4 +1845,43 @@ func (x *Exec) evalObserve(sc *specCtx, ob Clause) {
 	for i, t := range ts {
 		x.curObs = append(x.curObs, Observe{fmt.Sprintf("%s_%d", ob.Label, i), t})
 	}
+}
+
+// funcValueName gives a stable name to a called function value: the parameter / captured variable name, or
+// the struct field it was read from (never an SSA register name when avoidable).
+func funcValueName(v ssa.Value) string {
+	switch cv := v.(type) {
+	case *ssa.Parameter:
+		return cv.Name()
+	case *ssa.FreeVar:
+		return cv.Name()
+	case *ssa.Field:
+		if st, ok := cv.X.Type().Underlying().(*types.Struct); ok {
+			return st.Field(cv.Field).Name()
+		}
+	case *ssa.UnOp:
+		switch a := cv.X.(type) {
+		case *ssa.FieldAddr:
+			if pt, ok := a.X.Type().Underlying().(*types.Pointer); ok {
+				if st, ok := pt.Elem().Underlying().(*types.Struct); ok {
+					return st.Field(a.Field).Name()
+				}
+			}
+		case *ssa.FreeVar:
+			return a.Name()
+		case *ssa.Alloc:
+			if a.Comment != "" {
+				return a.Comment
+			}
+		case *ssa.Global:
+			return a.Name()
+		}
+	case *ssa.Phi:
+		if cv.Comment != "" {
+			return cv.Comment
+		}
+	case *ssa.Extract:
+		return "result" + fmt.Sprint(cv.Index)
+	}
+	return v.Name()
 }
